@@ -98,6 +98,10 @@ type C13Input struct {
 	Post     []int `json:"post"`
 	Load     int   `json:"load"`
 	Serial   bool  `json:"serial,omitempty"` // measured alone: goroutine delta
+	// Start: the schema has Start (so Dispose takes its grace step), Start is
+	// active and, with Handlers, StartEnd is bound (the grace Remove1(Start)
+	// then needs the handler loop)
+	Start bool `json:"start,omitempty"`
 }
 
 type C13Obs struct {
@@ -295,6 +299,10 @@ func c13New(in *C13Input, obs *C13Obs, id string) (*c13Mach, []*atomic.Int32) {
 		names = append(names, "Start", ssam.DisposedStates.RegisterDisposal,
 			ssam.DisposedStates.Disposing, ssam.DisposedStates.Disposed)
 	}
+	if in.Start && in.Mode != 6 {
+		schema["Start"] = am.State{}
+		names = append(names, "Start")
+	}
 	names = append(names, am.StateException)
 	m := am.New(ctx, schema, &am.Opts{Id: id, HandlerTimeout: 5 * time.Second})
 	m.DisposeTimeout = 400 * time.Millisecond
@@ -312,10 +320,16 @@ func c13New(in *C13Input, obs *C13Obs, id string) (*c13Mach, []*atomic.Int32) {
 		if in.Mode == 5 {
 			fin["CState"] = func(e *am.Event) { m.Dispose() }
 		}
+		if in.Start {
+			fin["StartEnd"] = func(e *am.Event) {}
+		}
 		_, err := m.HandlersBindMaps(nil, fin)
 		must(err)
 	}
 	m.Add1("B", nil)
+	if in.Start {
+		m.Add1("Start", nil)
+	}
 	counts := make([]*atomic.Int32, in.NDisp)
 	for i := range counts {
 		c := &atomic.Int32{}
@@ -711,6 +725,7 @@ func c13Gen(r *Rng, gated bool) *C13Input {
 		if r.Chance(50) && in.Mode != 7 {
 			in.Load = r.Range(1, 2)
 		}
+		in.Start = r.Chance(40)
 		return in
 	}
 	// threads: 1-2 disposers, 0-1 workload goroutine, 1-3 API callers
@@ -888,6 +903,11 @@ func runC13(c *Ctx) error {
 				c13WhenQueue, c13StateCtx}, NDisp: 2, Threads: []int{}, Schedule: []int{}, Post: []int{c13Add, c13When},
 				Serial: true}
 			items = append(items, &item{kind: "serial", in: in})
+			if mode != 6 {
+				in2 := *in
+				in2.Start = true
+				items = append(items, &item{kind: "serial-start", in: &in2})
+			}
 		}
 		for _, in := range c13Landings() {
 			items = append(items, &item{kind: "landing", in: in})
@@ -935,6 +955,7 @@ func runC13(c *Ctx) error {
 		out.Count("dispose_handlers", fmt.Sprint(in.NDisp))
 		out.Count("state_handlers", fmt.Sprint(in.Handlers))
 		out.Count("load_goroutines", fmt.Sprint(in.Load))
+		out.Count("start_state", fmt.Sprint(in.Start))
 		out.Count("disposed", fmt.Sprint(obs.Disposed))
 		for _, k := range in.Threads {
 			out.Count("thread_kind", fmt.Sprint(k))
@@ -948,7 +969,7 @@ func runC13(c *Ctx) error {
 	if !replayOnly && forced == 0 {
 		return fmt.Errorf("no schedule step could be forced: the schedule points of doDispose/When/processQueue are gone")
 	}
-	out.Close("machine A(inactive) B(active) C(Multi) [+ Disposed mixin in mode 6]; 0-6 outstanding waiters of the kinds "+
+	out.Close("machine A(inactive) B(active) C(Multi) [+ Disposed mixin in mode 6; + an active Start with a StartEnd handler in 40% of the whole-run cases, so that Dispose takes its grace step]; 0-6 outstanding waiters of the kinds "+
 		"When/WhenNot/WhenTime/WhenQuery/WhenQueue/WhenArgs/NewStateCtx/WhenErr/WhenTicks, 0-3 OnDispose handlers, with "+
 		"and without state handlers; gated cases: DisposeForce (1-2 goroutines), an Add1 workload goroutine and 1-3 API "+
 		"callers parked at every verifPoint and released one per schedule entry (systematic landings: every call kind at "+
